@@ -363,6 +363,28 @@ def check_traces(ctx, traces, label, module="TraceDial", cfg="TraceDial.cfg", sp
 
 
 
+def check_traces_chunks(ctx, traces, chunk, label, par=6, **kw):
+    """Validate a large batch as several TLC runs side by side (each trace validation is single-threaded)."""
+    from concurrent.futures import ThreadPoolExecutor
+    parts = [(i // chunk, traces[i:i + chunk]) for i in range(0, len(traces), chunk)]
+    if len(parts) <= 1:
+        for k, part in parts:
+            check_traces(ctx, part, "%s%d" % (label, k), **kw)
+        return
+    errs = []
+
+    def one(kp):
+        k, part = kp
+        try:
+            check_traces(ctx, part, "%s%d" % (label, k), **kw)
+        except Inconclusive as e:
+            errs.append(e)
+    with ThreadPoolExecutor(max_workers=par) as ex:
+        list(ex.map(one, parts))
+    if errs:
+        raise errs[0]
+
+
 def load_known():
     p = os.path.join(VERIF, "known_findings.json")
     if not os.path.exists(p):
